@@ -152,10 +152,11 @@ def specs(tier: str):
         # the larger two-task scenarios: in the quick tier as bug hunting (violation query only, no unwinding assertion)
         add("sc_one_user", 0, hasprimary=True, backend="thread", waitall_first=False)
         add("sc_two_spawners", 0, hasprimary=True, backend="thread")
-        for sp in out[-2:]:
+        add("sc_shutdown_race", 0, hasprimary=True, backend="main_thread_only", ntasks=2)
+        for sp in out[-3:]:
             sp["hunt"] = True
             sp["timeout"] = 900
-        out[-1]["hunt_depth"] = 32     # (deeper does not finish in the quick budget on the unchanged tree; lost-task / deadlock schedules are short)
+        out[-2]["hunt_depth"] = 32     # two_spawners (deeper does not finish in the quick budget on the unchanged tree; lost-task / deadlock schedules are short)
     if thorough:
         add("sc_one_user", 0, hasprimary=True, backend="thread", waitall_first=False)
         add("sc_one_user", 0, hasprimary=False, backend="thread", waitall_first=True)
